@@ -164,7 +164,13 @@ func Finish(o *Outcome, s *sim.Sim, requests int) {
 		o.Probes[k] += v
 	}
 	o.SimSeconds += s.Elapsed().Seconds()
-	o.TraceHash = fmt.Sprintf("%016x", s.TraceHash())
+	th := s.TraceHash()
+	if o.TraceHash != "" {
+		var prev uint64
+		fmt.Sscanf(o.TraceHash, "%x", &prev)
+		th = (prev * 1099511628211) ^ th
+	}
+	o.TraceHash = fmt.Sprintf("%016x", th)
 	o.Interleave = fmt.Sprintf("%016x", s.Interleave)
 	o.Steps += s.Steps()
 	o.Switches += s.Switches
